@@ -1032,6 +1032,10 @@ func sigv4Diagnose(e *sigv4Env, s *sigv4Spec) string {
 			return false
 		}
 		r := e.deliver(e.hAuth, b.Wire, sigv4Delivery{FailAt: -1})
+		if r.Transport == nil && r.Status/100 == 2 && v.Op == "put" {
+			// the diagnostic variant is a real request: its accepted PUT takes effect
+			sigv4Overwritten[e] = append(sigv4Overwritten[e], v.Key+"\x00"+string(v.Payload))
+		}
 		return r.Transport == nil && sigv4Authenticated(r.Status)
 	}
 	noWS, noQuery := *s, *s
